@@ -73,3 +73,43 @@ PROPS["C20"] = {
         {"name": "C20.len", "test": "TestVerifC20Len", "shards": 4, "bubble": False},
     ],
 }
+
+PROPS["C02"] = {
+    "claimed": False,
+    "level": "exploration",
+    "level_text": "TODO",
+    "level_note": "TODO",
+    "technique": "TODO",
+    "rule": "TODO",
+    "monitors": [
+        {"name": "C02.cache.small", "test": "TestVerifC02CacheSmall", "pkg": "timecache", "shards": 16},
+        {"name": "C02.cache.rand", "test": "TestVerifC02CacheRand", "pkg": "timecache", "shards": 16},
+        {"name": "C02.cache.stress", "test": "TestVerifC02CacheStress", "pkg": "timecache", "shards": 4, "gomaxprocs": 8, "bubble": False, "race": True},
+    ],
+}
+
+PROPS["C17"] = {
+    "claimed": False,
+    "level": "exploration",
+    "level_text": "TODO",
+    "level_note": "TODO",
+    "technique": "TODO",
+    "rule": "TODO",
+    "monitors": [
+        {"name": "C17.cache.small", "test": "TestVerifC17CacheSmall", "shards": 16, "bubble": False},
+        {"name": "C17.cache.rand", "test": "TestVerifC17CacheRand", "shards": 16, "bubble": False},
+    ],
+}
+
+PROPS["C10"] = {
+    "claimed": False,
+    "level": "exploration",
+    "level_text": "TODO",
+    "level_note": "TODO",
+    "technique": "TODO",
+    "rule": "TODO",
+    "monitors": [
+        {"name": "C10.score", "test": "TestVerifC10Score", "shards": 16},
+        {"name": "C10.partial", "test": "TestVerifC10Partial", "shards": 4},
+    ],
+}
